@@ -1,6 +1,10 @@
 /-
   Lemmas for `InterpCtlAux.lean`, part 2: running the monad `Src.M` (one lemma per primitive of `Model/InterpSrc.lean`), the loop test,
-  the header of an iteration (`hdr`) and its image under `abs`, `do_jump`, the initial state, and the arithmetic of `lddw`.
+  the header of an iteration (`hdr`) and its image under `abs`, `do_jump`, the initial state, then the translated arms against the
+  model's (`lddw_rel`, `call_rel`, `tail_rel`, `exit_rel`, `other_rel`, `default_rel`) and their assembly `stepSrc_rel'`.
+
+  Proof style: the do-blocks are evaluated with `rw` chains over `*_bind` lemmas stated with `if` (not with `simp` over `bind_run`)
+  wherever `2 ^ 64` arithmetic on symbolic operands is in sight — see the note before `getPtr_bind`.
 -/
 import RbpfModel.Lemmas.InterpCtlAux1
 namespace Rbpf.Src
@@ -222,4 +226,420 @@ theorem lddw_val (imm nimm : BitVec 32) :
   have := imm.isLt
   omega
 
+theorem ex_24 (env : Env) (s : State) (dstb srcb : BitVec 8) (off : BitVec 16) (imm : BitVec 32) :
+    Interp.exec env s ⟨24, dstb, srcb, off, imm⟩ =
+      (match getInsn? env.prog s.pc with
+       | none => .panic
+       | some next => Interp.wr { s with pc := s.pc + 1 } dstb.toNat (Interp.zx32 imm + (Interp.sx32 next.imm <<< (32 : Nat)))) := by
+  rfl
+
+theorem lddw_rel (env : Env) (σ : St) (dstb srcb : BitVec 8) (off : BitVec 16) (imm : BitVec 32) (hp : σ.insnPtr < 2 ^ 62)
+    (hi : Inv σ) :
+    RelOut (lddwArmSrc env ⟨24, dstb, srcb, off, imm⟩ σ) (Interp.exec env (abs σ) ⟨24, dstb, srcb, off, imm⟩) := by
+  rw [ex_24]
+  show RelOut _ (match getInsn? env.prog σ.insnPtr with | none => _ | some next => _)
+  have hp1 : σ.insnPtr + 1 < 2 ^ 64 := by omega
+  unfold lddwArmSrc
+  rw [getPtr_bind]
+  cases hg : getInsn? env.prog σ.insnPtr with
+  | none => rw [getInsn_bind_none _ _ _ _ hg]; rfl
+  | some next =>
+    rw [getInsn_bind_some _ _ _ _ _ hg]
+    have hlt := lddw_lt imm next.imm
+    have hv := lddw_val imm next.imm
+    show RelOut ((getPtr >>= fun t3 => addU 64 t3 1 >>= fun t4 => setPtr t4 >>= fun _ =>
+      addU 64 (asU 32 imm.toInt) (shlU 64 (asU 64 next.imm.toInt) 32) >>= fun t5 => setReg dstb.toNat (BitVec.ofNat 64 t5)) σ) _
+    generalize asU 32 imm.toInt = A at hlt hv ⊢
+    generalize shlU 64 (asU 64 next.imm.toInt) 32 = B at hlt hv ⊢
+    rw [getPtr_bind, addU_bind, if_pos hp1, setPtr_bind, addU_bind, if_pos hlt, hv]
+    by_cases hd : dstb.toNat < 11
+    · rw [setReg_run _ _ _ hd]
+      simp only [Interp.wr, hd, if_true]
+      exact Or.inl ⟨rfl, hi⟩
+    · simp only [setReg, Interp.wr, hd, if_false]
+      rfl
+
+/-! ## the accessors of `stack.rs` in front of a continuation -/
+
+theorem saveRegisters_bind (k : Nat) (f : Unit → M β) (σ : St) (h : k < 8) :
+    (saveRegisters k >>= f) σ =
+      f () { σ with
+        stacks := σ.stacks.setIfInBounds k { (σ.stacks[k]) with savedRegisters := (σ.reg[6], σ.reg[7], σ.reg[8], σ.reg[9]) } } := by
+  simp only [saveRegisters, bind_run, getReg_run _ _ (show 6 < 11 by decide), getReg_run _ _ (show 7 < 11 by decide),
+    getReg_run _ _ (show 8 < 11 by decide), getReg_run _ _ (show 9 < 11 by decide), modFrame_run _ _ _ h]
+
+theorem restoreRegisters_bind (k : Nat) (f : Unit → M β) (σ : St) (h : k < 8) :
+    (restoreRegisters k >>= f) σ =
+      f () { σ with
+        reg := (((σ.reg.setIfInBounds 6 σ.stacks[k].savedRegisters.1).setIfInBounds 7
+                  σ.stacks[k].savedRegisters.2.1).setIfInBounds 8 σ.stacks[k].savedRegisters.2.2.1).setIfInBounds 9
+                  σ.stacks[k].savedRegisters.2.2.2 } := by
+  simp only [restoreRegisters, bind_run, getFrame_run _ _ h, setReg_run _ _ _ (show 6 < 11 by decide),
+    setReg_run _ _ _ (show 7 < 11 by decide), setReg_run _ _ _ (show 8 < 11 by decide), setReg_run _ _ _ (show 9 < 11 by decide)]
+
+theorem saveReturnAddress_bind (k a : Nat) (f : Unit → M β) (σ : St) (h : k < 8) :
+    (saveReturnAddress k a >>= f) σ =
+      f () { σ with stacks := σ.stacks.setIfInBounds k { (σ.stacks[k]) with returnAddress := a } } := by
+  simp only [saveReturnAddress, modFrame_bind _ _ _ _ h]
+
+theorem getReturnAddress_bind (k : Nat) (f : Nat → M β) (σ : St) (h : k < 8) :
+    (getReturnAddress k >>= f) σ = f σ.stacks[k].returnAddress σ := by
+  simp only [getReturnAddress, bind_run, getFrame_run _ _ h, pure_run]
+
+theorem getStackUsage_bind (k : Nat) (f : Nat → M β) (σ : St) (h : k < 8) :
+    (getStackUsage k >>= f) σ = f σ.stacks[k].stackUsage σ := by
+  simp only [getStackUsage, bind_run, getFrame_run _ _ h, pure_run]
+
+/-! ## the arms -/
+
+theorem ex_133 (env : Env) (s : State) (dstb srcb : BitVec 8) (off : BitVec 16) (imm : BitVec 32) :
+    Interp.exec env s ⟨133, dstb, srcb, off, imm⟩ =
+      (if srcb.toNat = 0 then Interp.callHelper env s imm else if srcb.toNat = 1 then Interp.callLocal s imm
+       else .err .callType s) := by rfl
+theorem ex_141 (env : Env) (s : State) (dstb srcb : BitVec 8) (off : BitVec 16) (imm : BitVec 32) :
+    Interp.exec env s ⟨141, dstb, srcb, off, imm⟩ = .err .tailCall s := by rfl
+theorem ex_149 (env : Env) (s : State) (dstb srcb : BitVec 8) (off : BitVec 16) (imm : BitVec 32) :
+    Interp.exec env s ⟨149, dstb, srcb, off, imm⟩ = Interp.exitInsn s := by rfl
+
+theorem tail_rel (env : Env) (σ : St) (dstb srcb : BitVec 8) (off : BitVec 16) (imm : BitVec 32) :
+    RelOut (tailCallArmSrc env ⟨141, dstb, srcb, off, imm⟩ σ) (Interp.exec env (abs σ) ⟨141, dstb, srcb, off, imm⟩) := by
+  rw [ex_141]; rfl
+
+theorem default_rel (env : Env) (σ : St) (opc dstb srcb : BitVec 8) (off : BitVec 16) (imm : BitVec 32)
+    (h1 : isOther opc.toNat = false) (h2 : opc.toNat ≠ 24) (h3 : opc.toNat ≠ 133) (h4 : opc.toNat ≠ 141) (h5 : opc.toNat ≠ 149) :
+    RelOut (defaultArmSrc σ) (Interp.exec env (abs σ) ⟨opc, dstb, srcb, off, imm⟩) := by
+  rw [exec_unknown h1 h2 h3 h4 h5]; rfl
+
+theorem other_rel (env : Env) (σ : St) (opc dstb srcb : BitVec 8) (off : BitVec 16) (imm : BitVec 32)
+    (h1 : isOther opc.toNat = true) (hi : Inv σ) :
+    RelOut (otherArm env ⟨opc, dstb, srcb, off, imm⟩ σ) (Interp.exec env (abs σ) ⟨opc, dstb, srcb, off, imm⟩) := by
+  have hk := exec_keeps (env := env) (s := abs σ) (dstb := dstb) (srcb := srcb) (off := off) (imm := imm) h1
+  unfold otherArm
+  cases he : Interp.exec env (abs σ) ⟨opc, dstb, srcb, off, imm⟩ with
+  | next s' =>
+    rw [he] at hk
+    obtain ⟨hf, hu, hl⟩ := hk
+    refine Or.inl ⟨?_, hi⟩
+    obtain ⟨r, pc, fr, us, me, lg⟩ := s'
+    simp only at hf hu hl
+    subst hf hu hl
+    rfl
+  | done r s' => rw [he] at hk; exact hk.elim
+  | err e s' => rw [he] at hk; rw [show s' = abs σ from hk]; rfl
+  | panic => rfl
+  | fault => rfl
+
+theorem abs_frames_zero (σ : St) (h : σ.idx = 0) : (abs σ).frames = [] := by
+  simp only [abs, h, List.range_zero, List.reverse_nil, List.map_nil]
+
+theorem abs_frames_succ (σ : St) (n : Nat) (h : σ.idx = n + 1) :
+    (abs σ).frames = frameOf σ n :: (List.range n).reverse.map (frameOf σ) := by
+  simp only [abs, h, List.range_succ, List.reverse_append, List.reverse_cons, List.reverse_nil, List.nil_append, List.cons_append,
+    List.map_cons]
+
+theorem abs_exit (σ : St) (R : Vector (BitVec 64) 11) (P n : Nat) :
+    abs { reg := R, insnPtr := P, idx := n, stacks := σ.stacks, mem := σ.mem, log := σ.log } =
+      { reg := R, pc := P, frames := (List.range n).reverse.map (frameOf σ), usage := (abs σ).usage, mem := σ.mem,
+        log := σ.log } := rfl
+
+theorem exit_rel (env : Env) (σ : St) (dstb srcb : BitVec 8) (off : BitVec 16) (imm : BitVec 32) (hi : Inv σ) :
+    RelOut (exitArmSrc env ⟨149, dstb, srcb, off, imm⟩ σ) (Interp.exec env (abs σ) ⟨149, dstb, srcb, off, imm⟩) := by
+  rw [ex_149]
+  unfold exitArmSrc Interp.exitInsn
+  rw [getIdx_bind]
+  by_cases h0 : σ.idx > 0
+  · rw [if_pos (decide_eq_true h0)]
+    obtain ⟨n, hn⟩ : ∃ n, σ.idx = n + 1 := ⟨σ.idx - 1, by omega⟩
+    have hk : n < 8 := by unfold Inv at hi; omega
+    rw [abs_frames_succ σ n hn]
+    rw [getIdx_bind, subU_bind, if_pos (show 1 ≤ σ.idx by omega), setIdx_bind, getIdx_bind]
+    simp only [hn, Nat.add_sub_cancel]
+    rw [restoreRegisters_bind _ _ _ hk]
+    dsimp only
+    rw [getIdx_bind, getReturnAddress_bind _ _ _ hk, setPtr_bind, getIdx_bind]
+    dsimp only
+    rw [getStackUsage_bind _ _ _ hk, getReg_bind _ _ _ (show 10 < 11 by decide)]
+    dsimp only
+    have hlen : (List.map (frameOf σ) (List.range n).reverse).length = n := by
+      simp only [List.length_map, List.length_reverse, List.length_range]
+    have hus : (abs σ).usage[n]?.getD 0 = σ.stacks[n].stackUsage := by
+      simp only [abs, Vector.getElem?_eq_getElem hk, Option.getD_some, Vector.getElem_map]
+    have hfo : frameOf σ n = { ret := σ.stacks[n].returnAddress, saved := σ.stacks[n].savedRegisters } := by
+      simp only [frameOf, Vector.getElem?_eq_getElem hk, Option.getD_some]
+    have hr10 : ((((σ.reg.setIfInBounds 6 σ.stacks[n].savedRegisters.fst).setIfInBounds 7
+        σ.stacks[n].savedRegisters.snd.fst).setIfInBounds 8 σ.stacks[n].savedRegisters.snd.snd.fst).setIfInBounds 9
+        σ.stacks[n].savedRegisters.snd.snd.snd)[10] = σ.reg[10] := by
+      simp only [Vector.getElem_setIfInBounds, Nat.reduceEqDiff, if_false]
+    rw [hlen, hus, hfo, hr10, InterpArmsAux.rd_eq _ _ _ (show 10 < 11 by decide), show (abs σ).reg[10] = σ.reg[10] from rfl]
+    show RelOut _ (if σ.reg[10].toNat + σ.stacks[n].stackUsage ≥ 2 ^ 64 then _ else _)
+    generalize σ.reg[10] = r10
+    generalize σ.stacks[n].stackUsage = u
+    rw [addU_bind]
+    by_cases hov : r10.toNat + u < 2 ^ 64
+    · rw [if_pos hov, if_neg (by omega), setReg_run _ _ _ (show 10 < 11 by decide)]
+      have hv : BitVec.ofNat 64 (r10.toNat + u) = r10 + BitVec.ofNat 64 u := by
+        rw [BitVec.ofNat_add, BitVec.ofNat_toNat, BitVec.setWidth_eq]
+      rw [hv]
+      refine Or.inl ⟨?_, show n ≤ 8 by omega⟩
+      dsimp only
+      rw [show (abs σ).reg = σ.reg from rfl, show (abs σ).mem = σ.mem from rfl, show (abs σ).log = σ.log from rfl,
+        abs_exit σ _ _ n]
+    · rw [if_neg hov, if_pos (by omega)]
+      rfl
+  · rw [if_neg (by simpa using h0)]
+    have h00 : σ.idx = 0 := by omega
+    rw [abs_frames_zero σ h00, getReg_bind _ _ _ (show 0 < 11 by decide)]
+    rw [InterpArmsAux.rd_eq _ _ _ (show 0 < 11 by decide), BitVec.ofNat_toNat, BitVec.setWidth_eq]
+    rfl
+
+theorem invoke_bind (g : Nat × HelperFn) (a1 a2 a3 a4 a5 : BitVec 64) (f : BitVec 64 → M β) (σ : St) :
+    (invoke g a1 a2 a3 a4 a5 >>= f) σ = f (g.2 a1 a2 a3 a4 a5) { σ with log := σ.log ++ [(g.1, [a1, a2, a3, a4, a5])] } := rfl
+
+theorem ofNat_toNat64 (x : BitVec 64) : BitVec.ofNat 64 x.toNat = x := by
+  rw [BitVec.ofNat_toNat, BitVec.setWidth_eq]
+
+theorem callArm_0 (env : Env) (insn : Insn) (h : insn.src.toNat = 0) :
+    callArmSrc env insn =
+      (match lookupHelper env (asU 32 insn.imm.toInt) with
+       | some function => do
+         let t1 ← getReg 1
+         let t2 ← getReg 2
+         let t3 ← getReg 3
+         let t4 ← getReg 4
+         let t5 ← getReg 5
+         let t6 ← invoke function (BitVec.ofNat 64 t1.toNat) (BitVec.ofNat 64 t2.toNat) (BitVec.ofNat 64 t3.toNat)
+           (BitVec.ofNat 64 t4.toNat) (BitVec.ofNat 64 t5.toNat)
+         setReg 0 (BitVec.ofNat 64 t6.toNat)
+       | none => raise .unknownHelper) := by
+  unfold callArmSrc; rw [h]; rfl
+
+theorem callHelper_rel (env : Env) (σ : St) (dstb srcb : BitVec 8) (off : BitVec 16) (imm : BitVec 32) (hi : Inv σ)
+    (h0 : srcb.toNat = 0) :
+    RelOut (callArmSrc env ⟨133, dstb, srcb, off, imm⟩ σ) (Interp.callHelper env (abs σ) imm) := by
+  rw [callArm_0 _ _ h0]
+  unfold Interp.callHelper
+  dsimp only
+  rw [asU32_toInt]
+  unfold lookupHelper
+  cases hh : env.helpers imm.toNat with
+  | none => rfl
+  | some g =>
+    simp only [Option.map_some]
+    rw [getReg_bind _ _ _ (show 1 < 11 by decide), getReg_bind _ _ _ (show 2 < 11 by decide),
+      getReg_bind _ _ _ (show 3 < 11 by decide), getReg_bind _ _ _ (show 4 < 11 by decide),
+      getReg_bind _ _ _ (show 5 < 11 by decide), invoke_bind, setReg_run _ _ _ (show 0 < 11 by decide)]
+    simp only [ofNat_toNat64, InterpArmsAux.rd_eq _ _ _ (show 1 < 11 by decide), InterpArmsAux.rd_eq _ _ _ (show 2 < 11 by decide),
+      InterpArmsAux.rd_eq _ _ _ (show 3 < 11 by decide), InterpArmsAux.rd_eq _ _ _ (show 4 < 11 by decide),
+      InterpArmsAux.rd_eq _ _ _ (show 5 < 11 by decide), Interp.wr, show (0 : Nat) < 11 by decide, if_true]
+    exact Or.inl ⟨rfl, hi⟩
+
+theorem abs_call (σ : St) (R : Vector (BitVec 64) 11) (P a : Nat) (sv : BitVec 64 × BitVec 64 × BitVec 64 × BitVec 64)
+    (hk : σ.idx < 8) :
+    abs { reg := R, insnPtr := P, idx := σ.idx + 1,
+          stacks := σ.stacks.setIfInBounds σ.idx
+            { returnAddress := a, savedRegisters := sv, stackUsage := σ.stacks[σ.idx].stackUsage },
+          mem := σ.mem, log := σ.log } =
+      { reg := R, pc := P, frames := { ret := a, saved := sv } :: (abs σ).frames, usage := (abs σ).usage,
+        mem := σ.mem, log := σ.log } := by
+  simp only [abs, List.range_succ, List.reverse_append, List.reverse_cons, List.reverse_nil, List.nil_append, List.cons_append,
+    List.map_cons, State.mk.injEq, true_and, and_true, List.cons.injEq]
+  refine ⟨⟨?_, ?_⟩, ?_⟩
+  · simp only [frameOf, Vector.getElem?_setIfInBounds_self, hk, if_true, Option.getD_some]
+  · apply List.map_congr_left
+    intro k hk'
+    simp only [List.mem_reverse, List.mem_range] at hk'
+    simp only [frameOf, Vector.getElem?_setIfInBounds_ne (show σ.idx ≠ k by omega)]
+  · apply Vector.ext
+    intro i hi
+    simp only [Vector.getElem_map, Vector.getElem_setIfInBounds]
+    split
+    · rename_i h; subst h; rfl
+    · rfl
+
+theorem callLocal_rel (env : Env) (σ : St) (dstb srcb : BitVec 8) (off : BitVec 16) (imm : BitVec 32)
+    (hp : σ.insnPtr < 2 ^ 62) (h1 : srcb.toNat = 1) :
+    RelOut (callArmSrc env ⟨133, dstb, srcb, off, imm⟩ σ) (Interp.callLocal (abs σ) imm) := by
+  unfold callArmSrc Interp.callLocal
+  dsimp only
+  rw [h1, abs_depth]
+  show RelOut ((getIdx >>= _) σ) _
+  rw [getIdx_bind]
+  by_cases h8 : σ.idx ≥ 8
+  · rw [if_pos (decide_eq_true h8), raise_bind, if_pos h8]
+    rfl
+  · rw [if_neg (by simpa using h8), if_neg h8]
+    have hk : σ.idx < 8 := by omega
+    rw [getIdx_bind, saveRegisters_bind _ _ _ hk]
+    dsimp only
+    rw [getIdx_bind, getPtr_bind, saveReturnAddress_bind _ _ _ _ hk]
+    dsimp only
+    rw [getIdx_bind, getStackUsage_bind _ _ _ hk, getReg_bind _ _ _ (show 10 < 11 by decide), subU_bind]
+    dsimp only
+    have hus : (abs σ).usage[σ.idx]?.getD 0 = σ.stacks[σ.idx].stackUsage := by
+      simp only [abs, Vector.getElem?_eq_getElem hk, Option.getD_some, Vector.getElem_map]
+    simp only [Vector.getElem_setIfInBounds, if_true, Vector.setIfInBounds_setIfInBounds]
+    rw [InterpArmsAux.rd_eq _ _ _ (show 6 < 11 by decide), InterpArmsAux.rd_eq _ _ _ (show 7 < 11 by decide),
+      InterpArmsAux.rd_eq _ _ _ (show 8 < 11 by decide), InterpArmsAux.rd_eq _ _ _ (show 9 < 11 by decide),
+      InterpArmsAux.rd_eq _ _ _ (show 10 < 11 by decide), hus]
+    show RelOut _ (if σ.reg[10].toNat < σ.stacks[σ.idx].stackUsage then Outcome.panic else
+      Interp.jumpTo
+        { reg := σ.reg.setIfInBounds 10 (σ.reg[10] - BitVec.ofNat 64 σ.stacks[σ.idx].stackUsage),
+          pc := σ.insnPtr,
+          frames := { ret := σ.insnPtr, saved := (σ.reg[6], σ.reg[7], σ.reg[8], σ.reg[9]) } :: (abs σ).frames,
+          usage := (abs σ).usage, mem := σ.mem, log := σ.log }
+        ((σ.insnPtr : Int) + imm.toInt))
+    generalize hsv : (σ.reg[6], σ.reg[7], σ.reg[8], σ.reg[9]) = sv
+    generalize hr10 : σ.reg[10] = r10
+    generalize hu : σ.stacks[σ.idx].stackUsage = u
+    by_cases hle : u ≤ r10.toNat
+    · have hv : BitVec.ofNat 64 (r10.toNat - u) = r10 - BitVec.ofNat 64 u := by
+        apply BitVec.eq_of_toNat_eq
+        have := r10.isLt
+        rw [BitVec.toNat_sub, BitVec.toNat_ofNat, BitVec.toNat_ofNat, Nat.mod_eq_of_lt (show u < 2 ^ 64 by omega),
+          Nat.mod_eq_of_lt (show r10.toNat - u < 2 ^ 64 by omega)]
+        omega
+      rw [if_pos hle, if_neg (by omega), setReg_bind _ _ _ _ (show 10 < 11 by decide), hv]
+      dsimp only
+      rw [getIdx_bind, addU_bind, if_pos (show σ.idx + 1 < 2 ^ 64 by omega), setIdx_bind, getPtr_bind]
+      dsimp only
+      have ho := BitVec.toInt_lt (x := imm)
+      have ho' := BitVec.le_toInt (x := imm)
+      simp only [Nat.reduceSub] at ho ho'
+      have hr : -(2 ^ (64 - 1) : Int) ≤ (σ.insnPtr : Int) + imm.toInt ∧ (σ.insnPtr : Int) + imm.toInt < 2 ^ (64 - 1) := by
+        omega
+      rw [asS_small _ (show σ.insnPtr < 2 ^ 63 by omega), addS_bind, if_pos hr]
+      subst hu
+      generalize ht : (σ.insnPtr : Int) + imm.toInt = t at hr
+      have hlo : -(2 ^ 62 : Int) ≤ t := by omega
+      unfold Interp.jumpTo setPtr
+      by_cases hneg : t < 0
+      · rw [if_pos hneg]
+        refine Or.inr ⟨rfl, ?_⟩
+        show 2 ^ 63 ≤ asU 64 t
+        unfold asU; omega
+      · rw [if_neg hneg]
+        refine Or.inl ⟨?_, show σ.idx + 1 ≤ 8 by omega⟩
+        have e : asU 64 t = t.toNat := by unfold asU; omega
+        dsimp only
+        rw [e, abs_call σ _ _ _ _ hk]
+    · rw [if_neg hle, if_pos (by omega)]
+      rfl
+
+theorem call_rel (env : Env) (σ : St) (dstb srcb : BitVec 8) (off : BitVec 16) (imm : BitVec 32) (hi : Inv σ)
+    (hp : σ.insnPtr < 2 ^ 62) :
+    RelOut (callArmSrc env ⟨133, dstb, srcb, off, imm⟩ σ) (Interp.exec env (abs σ) ⟨133, dstb, srcb, off, imm⟩) := by
+  rw [ex_133]
+  by_cases h0 : srcb.toNat = 0
+  · rw [if_pos h0]; exact callHelper_rel env σ dstb srcb off imm hi h0
+  · rw [if_neg h0]
+    by_cases h1 : srcb.toNat = 1
+    · rw [if_pos h1]; exact callLocal_rel env σ dstb srcb off imm hp h1
+    · rw [if_neg h1]
+      obtain ⟨k, hk⟩ : ∃ k, srcb.toNat = k + 2 := ⟨srcb.toNat - 2, by omega⟩
+      unfold callArmSrc
+      dsimp only
+      rw [hk]
+      rfl
+
+/-! ## one iteration -/
+
+theorem step_some (env : Env) (σ : St) (insn : Insn) (hc : σ.insnPtr * 8 < env.prog.size)
+    (hg : getInsn? env.prog σ.insnPtr = some insn) :
+    Interp.step env (abs σ) = Interp.exec env (abs (hdr env σ)) insn := by
+  rw [abs_hdr]
+  unfold Interp.step
+  rw [if_pos (show (abs σ).pc * 8 < env.prog.size from hc), show getInsn? env.prog (abs σ).pc = some insn from hg]
+  rfl
+
+theorem step_none (env : Env) (σ : St) (hc : σ.insnPtr * 8 < env.prog.size) (hg : getInsn? env.prog σ.insnPtr = none) :
+    Interp.step env (abs σ) = .panic := by
+  unfold Interp.step
+  rw [if_pos (show (abs σ).pc * 8 < env.prog.size from hc), show getInsn? env.prog (abs σ).pc = none from hg]
+
+theorem step_out (env : Env) (σ : St) (hc : ¬ σ.insnPtr * 8 < env.prog.size) : Interp.step env (abs σ) = .panic := by
+  unfold Interp.step
+  rw [if_neg (show ¬ (abs σ).pc * 8 < env.prog.size from hc)]
+
+/-- the arm selected by the opcode, as `stepSrc` writes it -/
+def armOf (env : Env) (insn : Insn) : M Unit :=
+  if insn.opc.toNat = opcLdDw then lddwArmSrc env insn
+  else if insn.opc.toNat = opcCall then callArmSrc env insn
+  else if insn.opc.toNat = opcTailCall then tailCallArmSrc env insn
+  else if insn.opc.toNat = opcExit then exitArmSrc env insn
+  else if isOther insn.opc.toNat then otherArm env insn
+  else defaultArmSrc
+
+theorem stepSrc_some (env : Env) (σ : St) (insn : Insn) (hc : σ.insnPtr * 8 < env.prog.size) (h64 : σ.insnPtr * 8 < 2 ^ 64)
+    (hg : getInsn? env.prog σ.insnPtr = some insn) : stepSrc env σ = armOf env insn (hdr env σ) := by
+  unfold stepSrc
+  rw [bind_run, loopCond_run, if_pos h64]
+  dsimp only
+  rw [if_pos (decide_eq_true hc), bind_run, header_some env σ insn hg (by omega)]
+  rfl
+
+theorem stepSrc_none (env : Env) (σ : St) (hc : σ.insnPtr * 8 < env.prog.size) (h64 : σ.insnPtr * 8 < 2 ^ 64)
+    (hg : getInsn? env.prog σ.insnPtr = none) : stepSrc env σ = .panic := by
+  unfold stepSrc
+  rw [bind_run, loopCond_run, if_pos h64]
+  dsimp only
+  rw [if_pos (decide_eq_true hc), bind_run, header_none env σ hg]
+
+theorem stepSrc_out (env : Env) (σ : St) (hc : ¬ σ.insnPtr * 8 < env.prog.size) : stepSrc env σ = .panic := by
+  unfold stepSrc
+  rw [bind_run, loopCond_run]
+  by_cases h64 : σ.insnPtr * 8 < 2 ^ 64
+  · rw [if_pos h64]
+    dsimp only
+    rw [if_neg (by simpa using hc)]
+    rfl
+  · rw [if_neg h64]
+
+theorem arm_rel (env : Env) (σ : St) (insn : Insn) (hi : Inv σ) (hp : σ.insnPtr < 2 ^ 62) :
+    RelOut (armOf env insn σ) (Interp.exec env (abs σ) insn) := by
+  obtain ⟨opc, dstb, srcb, off, imm⟩ := insn
+  unfold armOf
+  dsimp only
+  by_cases h1 : opc.toNat = opcLdDw
+  · rw [if_pos h1]
+    obtain rfl : opc = 24 := BitVec.eq_of_toNat_eq h1
+    exact lddw_rel env σ dstb srcb off imm hp hi
+  rw [if_neg h1]
+  by_cases h2 : opc.toNat = opcCall
+  · rw [if_pos h2]
+    obtain rfl : opc = 133 := BitVec.eq_of_toNat_eq h2
+    exact call_rel env σ dstb srcb off imm hi hp
+  rw [if_neg h2]
+  by_cases h3 : opc.toNat = opcTailCall
+  · rw [if_pos h3]
+    obtain rfl : opc = 141 := BitVec.eq_of_toNat_eq h3
+    exact tail_rel env σ dstb srcb off imm
+  rw [if_neg h3]
+  by_cases h4 : opc.toNat = opcExit
+  · rw [if_pos h4]
+    obtain rfl : opc = 149 := BitVec.eq_of_toNat_eq h4
+    exact exit_rel env σ dstb srcb off imm hi
+  rw [if_neg h4]
+  by_cases h5 : isOther opc.toNat = true
+  · rw [if_pos h5]
+    exact other_rel env σ opc dstb srcb off imm h5 hi
+  · rw [if_neg h5]
+    exact default_rel env σ opc dstb srcb off imm (by simpa using h5) h1 h2 h3 h4
+
+theorem inv_hdr (env : Env) (σ : St) (h : Inv σ) : Inv (hdr env σ) := by
+  unfold Inv hdr
+  dsimp only
+  split
+  · split <;> exact h
+  · exact h
+
+theorem stepSrc_rel' (env : Env) (σ : St) (hsz : env.prog.size < 2 ^ 63) (h : Inv σ) :
+    RelOut (stepSrc env σ) (Interp.step env (abs σ)) := by
+  by_cases hc : σ.insnPtr * 8 < env.prog.size
+  · have h64 : σ.insnPtr * 8 < 2 ^ 64 := by omega
+    cases hg : getInsn? env.prog σ.insnPtr with
+    | none => rw [stepSrc_none env σ hc h64 hg, step_none env σ hc hg]; rfl
+    | some insn =>
+      rw [stepSrc_some env σ insn hc h64 hg, step_some env σ insn hc hg]
+      exact arm_rel env (hdr env σ) insn (inv_hdr env σ h) (show σ.insnPtr + 1 < 2 ^ 62 by omega)
+  · rw [stepSrc_out env σ hc, step_out env σ hc]; rfl
 end Rbpf.Src
